@@ -295,7 +295,7 @@ fn main() {
         }));
         // ---- malformed histories x failing writers
         let corp = Arc::new(corpus(ctx.seed, true));
-        let n3 = ctx.tier.pick(60_000usize, 1_000_000);
+        let n3 = ctx.tier.pick(60_000usize, 8_000_000);
         gens.push(Gen::new("malformed_x_script", n3, move |ctx, i| {
             let mut rng = Rng::keyed(ctx.seed, "C09c", 0, i as u64);
             let c = &corp[rng.below(corp.len() as u64) as usize];
